@@ -76,6 +76,16 @@ def _cmake_options(repo):
 def compile_db(repo=None):
     """Return list of (file, flags[]) for the library units of the current CMakeLists.txt."""
     repo = repo or REPO
+    src_repo = os.environ.get("VERIF_COMPDB_FROM")
+    if src_repo and os.path.normpath(src_repo) != os.path.normpath(repo):
+        # mutant self-tests: the scratch copy has no test/ directory, so the build description is the
+        # one of the real tree (same CMakeLists.txt), with paths rewritten to the copy
+        if open(os.path.join(src_repo, "CMakeLists.txt"), "rb").read() != open(os.path.join(repo, "CMakeLists.txt"), "rb").read():
+            raise AnalysisBroken("scratch copy has a different CMakeLists.txt")
+        out = []
+        for f, fl in compile_db(src_repo):
+            out.append((repo + f[len(src_repo):], [a.replace(src_repo + "/", repo + "/") for a in fl]))
+        return out
     cml = os.path.join(repo, "CMakeLists.txt")
     if not os.path.exists(cml):
         raise AnalysisBroken("no CMakeLists.txt in " + repo)
